@@ -112,7 +112,7 @@ def gen_cases(rng, tier, seed):
         sizes += list(range(1, 20)) + [765, 766, 767, 768, 769, 770, 771, 799, 800] + [rng.randint(20, 764) for _ in range(12)]
     for n in sizes:
         cases.append(jac_case(rng, cid, n)); cid += 1
-    styles = ["csg"] * 5 + ["csg-smooth"] * 3 + ["sqrt", "pyramids", "shared"]
+    styles = ["csg"] * 5 + ["csg-smooth"] * 3 + ["sqrt", "pyramids", "shared", "axis", "axis"]
     for k in range(1200 if big else 160):
         cases.append(feat_case(rng, cid, styles[k % len(styles)])); cid += 1
     return cases
